@@ -142,6 +142,8 @@ def st_curve(draw, clean=False, n_len=None):
 def st_synth(draw):
     case = {"kind": "synth", "curve": draw(st_curve())}
     case.update(_st_transform(draw))
+    # the same curve as integer detector counts (int64 array) next to the float array holding the same values
+    case["as_int"] = draw(st.sampled_from([False, False, True, False]))
     return case
 
 
@@ -170,7 +172,8 @@ def st_degenerate(draw, shape=None):
     unit = draw(st.sampled_from([1e-9, 1e-9, 1.0, 1e-12]))
     if shape == "explicit":
         vals = draw(st.lists(st.one_of(st.sampled_from(_POOL), st.floats(-10, 10)), min_size=0, max_size=12))
-        return {"kind": "degenerate", "shape": shape, "unit": unit, "values": vals}
+        return {"kind": "degenerate", "shape": shape, "unit": unit, "values": vals,
+                "dtype": draw(st.sampled_from(["float", "float", "int", "float"]))}
     n = draw(st.one_of(st.integers(1, 14), st.integers(1, 120), st.integers(1, 400)))
     case = {"kind": "degenerate", "shape": shape, "unit": unit, "n": n,
             "offset": draw(st.sampled_from([0.0, 0.0, 1.0, -3.0, 100.0]))}
@@ -179,14 +182,24 @@ def st_degenerate(draw, shape=None):
     if shape == "decreasing":
         case["power"] = draw(st.sampled_from([1.0, 0.5, 2.0, 1.5]))
     if shape == "no_baseline":
-        case["power"] = draw(st.sampled_from([1.0, 1.5, 2.0]))
+        # convex (Hertz-like), linear, concave (square-root like: measurement started in contact, relaxing)
+        case["power"] = draw(st.sampled_from([1.0, 1.5, 0.5, 0.3, 2.0]))
         case["n_ret"] = draw(st.one_of(st.just(0), st.integers(0, 14), st.integers(0, 400)))
         case["noise"] = draw(st.sampled_from([0.0, 0.0, 1e-3, 1e-2]))
         case["noise_seed"] = draw(st.integers(0, 2 ** 20))
+    case["dtype"] = draw(st.sampled_from(["float", "float", "int", "float"]))
     return case
 
 
 def degenerate_array(case):
+    f = _degenerate_array(case)
+    if case.get("dtype") == "int":
+        # integer counts: same shape, values rounded to 1/1000 of the unit
+        return np.round(f / case["unit"] * 1000).astype(np.int64)
+    return f
+
+
+def _degenerate_array(case):
     unit = case["unit"]
     if case["shape"] == "explicit":
         return np.array(case["values"], dtype=float) * unit
@@ -312,6 +325,18 @@ def check_synth(case, ctx):
                   classes=["synth", curve["model"], "noisy" if curve["noise"] else "noise_free",
                            "tilted" if curve["tilt"] else "flat"])
     check_wellformed(case, ctx, a["force"], lambda: synth.build(curve))
+    if case.get("as_int"):
+        counts = np.round(a["force"] / a["frange"] * 2.0 ** 20).astype(np.int64)
+        for m in METHODS:
+            desc = {"method": m, "kind": "synth", "dtype": "int64"}
+            ok, idx_i = call(ctx, "raises", desc, counts, m)
+            if not ok:
+                continue
+            ok, idx_f = call(ctx, "raises", dict(desc, dtype="float64"), counts.astype(float), m)
+            if ok:
+                ctx.check(is_index(idx_i) and idx_i == idx_f, "dtype-changes-index", desc,
+                          f"int64 counts give {idx_i!r}, the same values as float64 give {idx_f!r}")
+        ctx.event("integer_counts")
 
 
 def check_recorded(case, ctx):
